@@ -232,3 +232,12 @@ where
         *x = (*z) / (*y);
     }
 }
+
+// read-only verification accessors
+#[cfg(feature = "verif")]
+impl<T: FloatT> NonnegativeCone<T> {
+    /// returns copies of (w, λ)
+    pub fn verif_state(&self) -> (Vec<T>, Vec<T>) {
+        (self.w.clone(), self.λ.clone())
+    }
+}
